@@ -50,30 +50,45 @@ def possible_strings(idx, fi, node):
     variable running over a constant table; None when unknown"""
     if isinstance(node, ast.Constant):
         return {node.value} if isinstance(node.value, str) else None
+    if isinstance(node, ast.JoinedStr):
+        outs = {""}
+        for part in node.values:
+            if isinstance(part, ast.Constant):
+                ps = {str(part.value)}
+            elif isinstance(part, ast.FormattedValue) and part.format_spec is None and part.conversion == -1:
+                ps = possible_strings(idx, fi, part.value)
+            else:
+                ps = None
+            if ps is None:
+                return None
+            outs = {a + b for a in outs for b in ps}
+        return outs
     if not isinstance(node, ast.Name):
         return None
-    binds = [t for t, v, st in stores_in(fi.node) if any(isinstance(x, ast.Name) and x.id == node.id for x in ast.walk(t))]
     loops = [n for n in walk_no_nested(fi.node) if isinstance(n, (ast.For, ast.comprehension)) and any(isinstance(x, ast.Name) and x.id == node.id for x in ast.walk(n.target))]
-    if len(loops) != 1 or len(binds) > 1:
-        return None
-    lp = loops[0]
-    rows = _const_table(idx, fi, lp.iter)
-    if rows is None:
+    plain = [n for n in walk_no_nested(fi.node) if isinstance(n, (ast.Assign, ast.AugAssign, ast.AnnAssign, ast.NamedExpr, ast.With)) and any(
+        isinstance(x, ast.Name) and x.id == node.id and isinstance(x.ctx, ast.Store) for x in ast.walk(n))]
+    params = {a.arg for a in fi.node.args.args + fi.node.args.kwonlyargs + fi.node.args.posonlyargs}
+    if not loops or plain or node.id in params:
         return None
     out = set()
-    for r in rows:
-        if isinstance(lp.target, ast.Name):
-            el = r
-        elif isinstance(lp.target, ast.Tuple) and isinstance(r, ast.Tuple) and len(r.elts) == len(lp.target.elts):
-            pos = [i for i, x in enumerate(lp.target.elts) if isinstance(x, ast.Name) and x.id == node.id]
-            if len(pos) != 1:
+    for lp in loops:
+        rows = _const_table(idx, fi, lp.iter)
+        if rows is None:
+            return None
+        for r in rows:
+            if isinstance(lp.target, ast.Name):
+                el = r
+            elif isinstance(lp.target, ast.Tuple) and isinstance(r, ast.Tuple) and len(r.elts) == len(lp.target.elts):
+                pos = [i for i, x in enumerate(lp.target.elts) if isinstance(x, ast.Name) and x.id == node.id]
+                if len(pos) != 1:
+                    return None
+                el = r.elts[pos[0]]
+            else:
                 return None
-            el = r.elts[pos[0]]
-        else:
-            return None
-        if not (isinstance(el, ast.Constant) and isinstance(el.value, str)):
-            return None
-        out.add(el.value)
+            if not (isinstance(el, ast.Constant) and isinstance(el.value, str)):
+                return None
+            out.add(el.value)
     return out
 
 
